@@ -107,6 +107,9 @@ fn main() {
             texts.push("ラ－メン―を–食べ─る".to_string());
         }
         texts.push(String::new());
+        texts.push("テ\u{3099}ータは\u{3099}か\u{3099}ハ\u{309a}ン".to_string());
+        texts.push(format!("\u{feff}{}", texts[0]));
+        texts.push("\u{feff}".to_string());
         texts.push("abc-XYZ 12.5% ｱｲｳ\r\nﾊﾟ".to_string());
         texts.push(format!("{}\n{}", texts[0], texts[0]));
         if rng.chance(1, 3) {
